@@ -89,11 +89,11 @@ def install(eng):
         return f
     def _dkey(eng, args, kwargs, fr, node):
         d, i = args
-        return V(d.ty[1], T.dict_keys(d)[eng.num(i).t])
+        return V(d.ty[1], eng.B.dict_key_at(eng, d, eng.num(i).t))
 
     def _dval(eng, args, kwargs, fr, node):
         d, i = args
-        return V(d.ty[2], z3.Select(T.dict_map(d), T.dict_keys(d)[eng.num(i).t]))
+        return V(d.ty[2], z3.Select(T.dict_map(d), eng.B.dict_key_at(eng, d, eng.num(i).t)))
 
     def _grouped(eng, args, kwargs, fr, node):
         xs = args[0]
